@@ -122,6 +122,26 @@ def _model(ck, res, name):
         raise FrameworkError("specification %s violates its own property %s:\n%s" % (name, res.violated, res.out[-2500:]))
 
 
+def _hrun(cmd, **kw):
+    """Run the harness.  libompl.so in the shared work directory may be re-linked by another check's
+    build at any moment; a binary started in that window fails to load it (exit 127).  Wait for the
+    build to finish (its lock) and start again."""
+    import time
+    for attempt in range(4):
+        rc, out, err = run_cmd(cmd, **kw)
+        if rc == 127 or "error while loading shared libraries" in err or "file too short" in err:
+            log("[C18] harness could not load libompl (being re-linked?); waiting for the build lock")
+            time.sleep(2 + 3 * attempt)
+            try:
+                with vlib._Lock("build-plain"):
+                    pass
+            except Exception:
+                pass
+            continue
+        return rc, out, err
+    return rc, out, err
+
+
 def _crashed(rc, out):
     return "CRASH" in out or rc in (70, 77, 78) or (rc is not None and rc < 0 and rc != -999)
 
@@ -175,7 +195,7 @@ def _dump_and_replay(ck, binary, name, ids, maxterm, mode, walks):
         raise FrameworkError("vacuity gate (%s): actions %s never taken / eval results true=%d false=%d calls=%d"
                              % (name, sorted(ACTIONS - set(acts)), ev_true, ev_false, ev_calls))
     ck.set("edges_per_action_" + name, acts)
-    rc, out, err = run_cmd([binary, "replay", gpath, mode, str(walks)], timeout=3000)
+    rc, out, err = _hrun([binary, "replay", gpath, mode, str(walks)], timeout=3000)
     summ = _parse(out, "SUMMARY")
     if summ is None:
         if _crashed(rc, out):
@@ -223,7 +243,7 @@ def _histories(ck, binary, tier):
     paths = []
     for i, (mode, n, ln, sd) in enumerate(jobs):
         tpath = os.path.join(WORK, "c18-hist-%d.ndjson" % i)
-        rc, out, err = run_cmd([binary, "record", tpath, mode, str(n), str(ln)], timeout=1200,
+        rc, out, err = _hrun([binary, "record", tpath, mode, str(n), str(ln)], timeout=1200,
                                env={"VERIF_SEED": str(sd)})
         info = _parse(out, "RECORDED")
         if rc != 0 or info is None:
@@ -308,7 +328,7 @@ def _costconv(ck, binary, tier):
             "threshold_hit_exactly": sum(1 for s in sc if s["exactAt"] and (not s["firedAt"] or s["exactAt"] <= s["firedAt"])),
             "literal_sliding_window_reading_fires_elsewhere": len(differ),
             "example_where_readings_differ": differ[0] if differ else None})
-        rc, out, err = run_cmd([binary, "costconv", spath], timeout=3000)
+        rc, out, err = _hrun([binary, "costconv", spath], timeout=3000)
         summ = _parse(out, "SUMMARY")
         if summ is None:
             if _crashed(rc, out):
@@ -341,7 +361,7 @@ def _costconv(ck, binary, tier):
 
 def _timed_once(binary, tag, nexec, jobs, sd):
     tpath = os.path.join(WORK, "c18-timed-%s.ndjson" % tag)
-    rc, out, err = run_cmd([binary, "timed", tpath, str(nexec), str(jobs)], timeout=1800, env={"VERIF_SEED": str(sd)})
+    rc, out, err = _hrun([binary, "timed", tpath, str(nexec), str(jobs)], timeout=1800, env={"VERIF_SEED": str(sd)})
     info = _parse(out, "RECORDED")
     return tpath, rc, out, err, info
 
@@ -456,7 +476,7 @@ def run(tier):
     if tier == "thorough":
         # every term of depth 2 without terminate(), a large sample with one terminate() per behaviour
         runs.append(("mc-all-d2", "ALL-D2", 0, 3, 0))
-        runs.append(("mc-d2-term1", sorted(rnd.sample(uni2, 4000)), 1, 3, 0))
+        runs.append(("mc-d2-term1", sorted(rnd.sample(uni2, 2500)), 1, 3, 0))
     for name, ids, maxterm, cap, maxlen in runs:
         res = run_tlc("base/PTC", cfg=_ptc_cfg(name, ids, maxterm, cap, maxlen, False), workers=vlib.NCPU,
                       timeout=3000, heap="6g")
@@ -506,9 +526,9 @@ def replay(path):
         return 1
     binary = build_harness("ptc", needs_lib=True)
     if base.startswith("costconv"):
-        rc, out, err = run_cmd([binary, "costconv", path])
+        rc, out, err = _hrun([binary, "costconv", path])
     else:
-        rc, out, err = run_cmd([binary, "replay", path, "edges", "0"])
+        rc, out, err = _hrun([binary, "replay", path, "edges", "0"])
     print(out[-3000:])
     print(err[-1000:])
     return 1 if rc else 0
@@ -520,7 +540,7 @@ def selftest():
     binary = build_harness("ptc", needs_lib=True)
     ok = True
     hp = os.path.join(WORK, "c18-selftest-hist.ndjson")
-    rc, out, err = run_cmd([binary, "record", hp, "sample", "60", "12"], timeout=600)
+    rc, out, err = _hrun([binary, "record", hp, "sample", "60", "12"], timeout=600)
     rows = vlib.read_ndjson(hp)
     acc, _, _ = validate_trace("base/PTCTrace", hp, heap="3g")
     print("history trace as recorded: %s" % ("accepted" if acc else "REJECTED"))
